@@ -26,6 +26,10 @@ type schedScenario struct {
 	Name   string
 	Params any
 	Run    func(prefix []int) schedOut
+	// DevBound: bound ALL deviations from the default schedule (every non-default
+	// choice costs 1), not only preemptions.  For scenarios with many independent
+	// threads, where free choices at blocking points alone explode.
+	DevBound bool
 }
 
 type schedStats struct {
@@ -85,7 +89,7 @@ func exploreSched(job *Job, res *Result, sc schedScenario, maxBound int) *schedS
 			}
 			np := 0
 			for _, p := range o.Trace {
-				if p.CurEnabled && p.Chosen != 0 {
+				if (p.CurEnabled || sc.DevBound) && p.Chosen != 0 {
 					np++
 				}
 			}
@@ -127,7 +131,7 @@ func exploreSched(job *Job, res *Result, sc schedScenario, maxBound int) *schedS
 				if i >= len(prefix) {
 					for alt := 1; alt < p.N; alt++ {
 						c := cost
-						if p.CurEnabled {
+						if p.CurEnabled || sc.DevBound {
 							c++
 						}
 						if c > bound {
@@ -147,14 +151,18 @@ func exploreSched(job *Job, res *Result, sc schedScenario, maxBound int) *schedS
 						}
 					}
 				}
-				if p.CurEnabled && p.Chosen != 0 {
+				if (p.CurEnabled || sc.DevBound) && p.Chosen != 0 {
 					cost++
 				}
 			}
 		}
 		rec(nil, 0, job.Shard == 0)
 		if !stop {
-			res.Bounds[sc.Name+".preemption_bound_completed"] = bound
+			if sc.DevBound {
+				res.Bounds[sc.Name+".deviation_bound_completed"] = bound
+			} else {
+				res.Bounds[sc.Name+".preemption_bound_completed"] = bound
+			}
 		}
 	}
 	res.States += len(st.Outcomes)
